@@ -459,7 +459,7 @@ def check_c08(res):
                 continue
             rejected = ("DUPLICATE_ELEMENT" in a) or ("DUPLICATE_KEY" in a)
             if twin and not rejected:
-                res.violations.append(Violation("duplicate-accepted:%s" % (twin[0][:12].decode(errors="replace"),), ln[:100000],
+                res.violations.append(Violation("duplicate-accepted", ln[:100000],
                                                 "%s of %d %s elements containing %r and %r accepted: %s" % (coll, count, kind, twin[0], twin[1], a[:80]), cfg))
             if not twin and not a.startswith("OK "):
                 res.violations.append(Violation("distinct-elements-rejected", ln[:100000],
@@ -553,3 +553,112 @@ def check_c09(res):
                     elif got != "idx%d" % want:
                         res.violations.append(Violation("helper-disagrees-with-lookup", ln[:3000], "entry %d: %s" % (want, got), cfg))
         res.sample({"cfg": cfg, "script": scripts[2][:300]})
+
+
+# =============================================================================== C05
+def c05_literals(rnd, n, thorough):
+    out = []
+    for _ in range(n):
+        k = rnd.random()
+        sign = rnd.choice(["", "", "-", "+"])
+        if k < 0.2:       # fast-path boundary cells: digits 1..17, |e| around 22
+            nd = rnd.randrange(1, 18)
+            m = str(rnd.randrange(10 ** (nd - 1), 10 ** nd))
+            e = rnd.choice([-24, -23, -22, -21, -1, 0, 1, 21, 22, 23, 24]) if rnd.random() < 0.7 else rnd.randrange(-30, 30)
+            if rnd.random() < 0.5:
+                p = rnd.randrange(0, len(m) + 1)
+                s = (m[:p] or "0") + "." + m[p:] + ("e%d" % e if rnd.random() < 0.7 else "")
+            else:
+                s = m + "e%d" % e
+        elif k < 0.35:    # 2^53 neighbourhood and 15/16 digit mantissas
+            m = rnd.choice([2 ** 53 - 1, 2 ** 53, 2 ** 53 + 1, 10 ** 15 - 1, 10 ** 15, 999999999999999, 9007199254740993]) + rnd.randrange(-2, 3)
+            s = "%d.0" % m if rnd.random() < 0.5 else "%de%d" % (m, rnd.randrange(-25, 25))
+        elif k < 0.5:     # shortest round-trip renderings of random doubles
+            import struct
+            u = rnd.getrandbits(64)
+            d = struct.unpack(">d", struct.pack(">Q", u))[0]
+            if d != d or d in (float("inf"), float("-inf")):
+                d = rnd.uniform(-1e300, 1e300)
+            s = repr(abs(d))
+            if "e" not in s and "." not in s:
+                s += ".0"
+            sign = "-" if d < 0 else sign
+        elif k < 0.6:     # halfway cases: exact decimal expansion of midpoints between adjacent doubles
+            from fractions import Fraction
+            import struct
+            u = rnd.getrandbits(62) | (1 << 52)
+            u &= (1 << 63) - 1
+            if ((u >> 52) & 0x7FF) in (0x7FF,):
+                u = 0x3FF0000000000000 + rnd.getrandbits(30)
+            a = struct.unpack(">d", struct.pack(">Q", u))[0]
+            b = struct.unpack(">d", struct.pack(">Q", u + 1))[0]
+            if a == float("inf") or b == float("inf") or a != a:
+                s = "0.5"
+            else:
+                mid = (Fraction(a) + Fraction(b)) / 2
+                # exact decimal only if denominator is a power of 2: always true here
+                num, den = mid.numerator, mid.denominator
+                k2 = den.bit_length() - 1
+                dec = num * 5 ** k2
+                ds = str(dec)
+                if len(ds) > 700 or k2 > 700:
+                    s = repr(a)
+                else:
+                    ds = ds.rjust(k2 + 1, "0")
+                    s = ds[:-k2] + "." + ds[-k2:] if k2 else ds + ".0"
+        elif k < 0.7:     # subnormal / overflow thresholds
+            s = rnd.choice(["4.9e-324", "2.4703282292062327e-324", "2.4703282292062328e-324", "2.225073858507201e-308",
+                            "2.2250738585072014e-308", "1.7976931348623157e308", "1.7976931348623158e308",
+                            "1.797693134862315807e308", "1.8e308", "1e309", "1e-400", "0e999999999", "1e-9999999999",
+                            "123456789e-340", "0.0000000000000000000000000000001e350"])
+        elif k < 0.85:    # long literals
+            nd = rnd.choice([20, 50, 100, 300, 500, 509, 510, 511] + ([512, 513, 600, 1000, 2000] if True else []))
+            m = "".join(rnd.choice("0123456789") for _ in range(nd))
+            m = (rnd.choice("123456789") + m)[:nd]
+            p = rnd.randrange(1, len(m))
+            s = m[:p] + "." + m[p:]
+            if rnd.random() < 0.4:
+                s += "e%d" % rnd.randrange(-400, 400)
+        else:
+            s = "%d.%de%s%d" % (rnd.randrange(0, 10 ** 6), rnd.randrange(0, 10 ** 9), rnd.choice(["", "+", "-"]), rnd.randrange(0, 40))
+        if s[0] in "+-":
+            sign = ""
+        out.append(sign + s)
+    return out
+
+
+@prop("C05")
+def check_c05(res):
+    rnd = random.Random(res.seed)
+    thorough = res.tier == "thorough"
+    res.rule = ("float literals [sign]digits[.digits][e[sign]digits], 1..2000 characters: fast-path boundary cells "
+                "(digit count x exponent), 2^53 neighbourhood, shortest round-trip renderings of random doubles, exact "
+                "half-way cases, subnormal/overflow thresholds, long literals; bit patterns compared with Python's "
+                "correctly rounded float(); the same literals through the static parse_double_from_buffer against the "
+                "model (incl. its strtod model). non-trivial = distinct literal")
+    n = 12000 if thorough else 2500
+    for cfg in CFGS:
+        exp = cfg[1] == "1"
+        lits = c05_literals(rnd, n, thorough)
+        lits += ["0.1", "0.2", "0.3", "1.1", "3e-1", "0.7", "1e23", "8.5e-5", "9007199254740993.0", "1e22", "1e-22", "123456789012345e-22",
+                 "0.0", "-0.0", "0e0", "1.", "1.e3", "5e-324", "3e-324", "2e-324"]
+        if exp:
+            lits += ["1_0.5", "1_000.000_1e1_0", "1.5e1_0"]
+        lines = [docline(l.encode()) for l in lits]
+        impl, model = correspond(res, cfg, "san", lines, label="float-literals")
+        for lit, a in zip(lits, impl):
+            res.nontrivial.add(lit)
+            nchars = len(lit)
+            res.count("len<=15" if nchars <= 15 else "len<=40" if nchars <= 40 else "len<512" if nchars < 512 else "len>=512")
+            if is_crash(a):
+                res.violations.append(Violation("float-literal-crash", docline(lit.encode()), a, cfg))
+                continue
+            want_bits = refs.expect_float_bits(lit, exp)
+            want = "OK float:%s@0-%d calls=0" % (want_bits, len(lit))
+            if a != want:
+                kind = "float-literal-of-512-or-more-bytes" if nchars >= 512 else "float-not-correctly-rounded"
+                res.violations.append(Violation(kind, docline(lit.encode()),
+                                                "literal %s (%d chars): implementation %s, correctly rounded %s" % (lit[:60], nchars, a[:60], want[:60]), cfg))
+        leaf = ["double %s" % l.encode().hex() for l in lits[:800]]
+        correspond(res, cfg, "prod", leaf, label="parse_double")
+        res.sample({"cfg": cfg, "literal": lits[7]})
